@@ -5,6 +5,7 @@ import (
 	"net/http"
 	"time"
 
+	"github.com/0xReLogic/Helios/internal/config"
 	"github.com/0xReLogic/Helios/internal/verifrt"
 )
 
@@ -34,13 +35,22 @@ func verifExec(cb *CircuitBreaker, fn func() error) (err error, panicked bool) {
 // the one-step inductive harness where no loop depends on them).
 var verifMaxThr = 3
 
+// verifLastMaxRequestsCfg: the configured (not the effective) max_requests of the last verifNewBreaker.
+var verifLastMaxRequestsCfg int
+
 func verifNewBreaker(onChange func(string, State, State)) (*CircuitBreaker, int, int, int, int64, int64) {
 	ft := verifrt.IntRange("failure_threshold", 1, verifMaxThr)
 	st := verifrt.IntRange("success_threshold", 1, verifMaxThr)
-	mr := verifrt.IntRange("max_requests", 1, verifMaxThr)
+	// max_requests as configured: 0 = unset (the breaker then admits success_threshold trials)
+	mrCfg := verifrt.IntRange("max_requests", 0, verifMaxThr)
+	verifLastMaxRequestsCfg = mrCfg
+	mr := mrCfg
+	if mr == 0 {
+		mr = st
+	}
 	interval := verifrt.IntRange("interval", 1, 1<<40)
 	timeout := verifrt.IntRange("timeout", 1, 1<<40)
-	cb := NewCircuitBreaker(Settings{Name: "verif", MaxRequests: uint32(mr), Interval: time.Duration(interval), Timeout: time.Duration(timeout),
+	cb := NewCircuitBreaker(Settings{Name: "verif", MaxRequests: uint32(mrCfg), Interval: time.Duration(interval), Timeout: time.Duration(timeout),
 		FailureThreshold: uint32(ft), SuccessThreshold: uint32(st), OnStateChange: onChange})
 	return cb, ft, st, mr, int64(interval), int64(timeout)
 }
@@ -151,8 +161,9 @@ func VerifC07Seq(k int) {
 // successful requests (success_threshold + max_requests + 1), and the last one
 // is admitted.
 func VerifC08Recovery(k int) {
-	cb, _, st, mr, _, timeout := verifNewBreaker(nil)
-	verifrt.Known("C08-halfopen-lockout", mr < st)
+	cb, ft, st, mr, _, timeout := verifNewBreaker(nil)
+	// "for every accepted configuration": the real validation decides
+	verifrt.Assume(config.VerifBreakerAccepted(ft, st, verifLastMaxRequestsCfg))
 	for i := 0; i < k; i++ {
 		ev := verifrt.Choice("event", 4)
 		if ev == 3 {
@@ -302,8 +313,9 @@ func VerifC07NegStep() {
 
 // VerifC08Step: the recovery script from ANY state satisfying the invariant.
 func VerifC08Step() {
-	cb, _, st, mr, _, timeout := verifNewBreaker(nil)
-	verifrt.Known("C08-halfopen-lockout", mr < st)
+	cb, ft, st, mr, _, timeout := verifNewBreaker(nil)
+	// "for every accepted configuration": the real validation decides
+	verifrt.Assume(config.VerifBreakerAccepted(ft, st, verifLastMaxRequestsCfg))
 	cb.state = State(verifrt.IntRange("state", 0, 2))
 	cb.failureCount = uint32(verifrt.IntRange("failureCount", 0, 1<<30))
 	cb.successCount = uint32(verifrt.IntRange("successCount", 0, 3))
